@@ -366,6 +366,17 @@ func (c32Store) Materialise(doc, path string) error {
 	return os.WriteFile(path, b, 0644)
 }
 func (c32Store) SetupAux(string) error          { return nil }
+
+func (c32Store) Families() []string { return []string{"rotate", "pages", "boxes"} }
+func (c32Store) Family(op string) string {
+	switch op {
+	case "rotate":
+		return "rotate"
+	case "box-add", "box-remove", "crop":
+		return "boxes"
+	}
+	return "pages"
+}
 func (c32Store) Structural(string, Model) error { return nil }
 
 func toRect(b *model.Box) *rect {
